@@ -107,6 +107,29 @@ def o2(tier):
     return ob.done(cases=len(paths))
 
 
+def o3(tier):
+    from props import memobs
+    r = memobs.memory_rollback(tier, 'O3', 'O3')
+    r.title = 'memory backend (shared with C09-O4): after snapshot / id rotation / rollback the Nostr-id routing index holds exactly the ids of the current records -- ' + r.title[:120]
+    return r
+
+
+def o4(tier):
+    from props import C09
+    r = C09.sqlite_columns(tier)
+    r.oid = 'O4'
+    r.title = 'SQLite (shared with C09-O2): rollback restores every column of the group record (no mirrored field keeps its post-snapshot value)'
+    return r
+
+
+def o5(tier):
+    from props import C10
+    r = C10.o4(tier)
+    r.oid = 'O5'
+    r.title = 'SQLite (shared with C10-O4): saving a group record overwrites every column and never deletes another group (colliding Nostr id is refused by the unique index, not resolved by REPLACE)'
+    return r
+
+
 def run(tier, seed, only=None):
-    obs = [('O1', o1), ('O2', o2)]
+    obs = [('O1', o1), ('O2', o2), ('O3', o3), ('O4', o4), ('O5', o5)]
     return [f(tier) for k, f in obs if not only or k in only]
